@@ -12,7 +12,7 @@ LEVEL = 'exploration'
 TECHNIQUE = ('property-based testing (Hypothesis): generated data / string / fill directive lines (negative and '
              'oversized values, expressions, forward and backward labels, escapes, both quote styles, terminators, '
              'both byte orders, counts and targets around the cursor) assembled by the real CLI and compared byte for '
-             'byte with an independent emitter')
+             'byte with an independent emitter; plus exhaustive enumeration of short quoted strings (quotes, semicolons, commas, escapes) under .cstr/.asciiz/.byte with every short comment text')
 RULE = ('1..8 directive lines are drawn from {.byte,.2byte,.4byte,.8byte lists of 1..8 expressions; quoted strings '
         'with escapes \\n \\t \\r \\0 \\\\ \\" \\\' \\xHH in either quote style under .byte/.cstr/.asciiz or bare when '
         'embedded strings are enabled; .fill n,v (n 0..300); .zero n; .zerountil a with a before/at/after the '
